@@ -3,6 +3,7 @@ package main
 import (
 	"fmt"
 	"go/ast"
+	"regexp"
 	"sort"
 	"strings"
 
@@ -105,7 +106,7 @@ func ruleR19_2(w *World, r *Report) {
 	var st *ssa.Store
 	forEachInstr(fn, func(in ssa.Instruction) {
 		if s, ok := in.(*ssa.Store); ok && s.Val == ssa.Value(outer) {
-			if ia, ok := s.Addr.(*ssa.IndexAddr); ok && strings.HasPrefix(canonName(ia.X), "strings.Split($1,") {
+			if ia, ok := s.Addr.(*ssa.IndexAddr); ok && splitOfParam.MatchString(canonName(ia.X)) {
 				stored, st = true, s
 			}
 		}
@@ -117,6 +118,9 @@ func ruleR19_2(w *World, r *Report) {
 	r.Check(order && stored && before, cons, u.Pos(inner.Pos()), "~1 then ~0, written back for every segment before the lookup",
 		fmt.Sprintf("decoding order ~1-before-~0: %v, written back into the segments: %v, before the target lookup: %v", order, stored, before))
 }
+
+// the segments are the Split of the path parameter (whatever its position in the signature)
+var splitOfParam = regexp.MustCompile(`^strings\.Split\(\$\d+,`)
 
 func asConst(v ssa.Value) *ssa.Const {
 	c, _ := v.(*ssa.Const)
